@@ -29,6 +29,22 @@ Local Notation msym := (mult_sym g Hwf).
 Local Notation mnn := (mult_nonneg g Hwf).
 Local Notation mdiag := (mult_diag g Hwf).
 
+(* in-degrees of a checked orientation are bounded by the in-degrees of its claimed order *)
+Lemma cert_indeg_le q R o pos : cert_ok g q R o pos = true -> forall v, In v V -> indeg_o g o v <= indeg_pos V m (fun x => nth x pos 0%nat) v.
+Proof. intros Hc v Hv. unfold cert_ok in Hc. apply andb_true_iff in Hc. destruct Hc as [Hc _]. apply andb_true_iff in Hc. destruct Hc as [H1 _].
+  rewrite forallb_forall in H1. set (posf := fun x => nth x pos 0%nat).
+  unfold indeg_o, indeg_pos. apply zsum_le. intros w Hw. pose proof (mnn v w) as Hnn.
+  destruct (o_mem o w v) eqn:Eo; [|destruct (Nat.ltb (posf w) (posf v)); lia].
+  destruct (Z.ltb_spec 0 (m w v)) as [Hpos|Hz].
+  - specialize (H1 w Hw). rewrite forallb_forall in H1. specialize (H1 v Hv). apply Z.ltb_lt in Hpos. rewrite Hpos in H1.
+    apply andb_true_iff in H1. destruct H1 as [_ H1]. rewrite Eo in H1. cbn [implb] in H1. change (Nat.ltb (posf w) (posf v) = true) in H1. rewrite H1. lia.
+  - rewrite (msym v w). pose proof (mnn w v). assert (m w v = 0) by lia. rewrite H0. destruct (Nat.ltb (posf w) (posf v)); lia. Qed.
+Lemma index_of_nth v B : In v B -> nth (index_of v B) B 0%nat = v.
+Proof. induction B as [|x t IH]; intros H; [destruct H|]. cbn [index_of]. destruct (Nat.eqb_spec x v) as [->|Hne]; [reflexivity|].
+  destruct H as [->|H]; [congruence|]. cbn [nth]. auto. Qed.
+Lemma index_of_inj B v w : In v B -> In w B -> index_of v B = index_of w B -> v = w.
+Proof. intros Hv Hw E. rewrite <- (index_of_nth v B Hv), <- (index_of_nth w B Hw). now rewrite E. Qed.
+
 (* ---- soundness of the certificate checker, for any orientation and any claimed order ---- *)
 Theorem cert_sound q R o pos : In q V -> cert_ok g q R o pos = true -> nthZ R q < 0 -> ~ winnable V m (nthZ R).
 Proof. intros Hq Hc Hneg. unfold cert_ok in Hc. apply andb_true_iff in Hc. destruct Hc as [Hc H3]. apply andb_true_iff in Hc. destruct Hc as [H1 H2].
